@@ -1,4 +1,4 @@
-import OrdModel.Proofs.IndexMiscReplayUtxoPass
+import OrdModel.Proofs.IndexMiscReplayBurned
 /-
 C37 — index events replay to the indexed state.
 
@@ -44,6 +44,19 @@ theorem c37_mints (cfg : Cfg) (chain : List Block) (st : State) (evs : List Even
   rw [this]
   exact (AL.get_map_val (fun e : RuneEntry => e.mints) st.runeEntries id).symm
 
+/-- Burned totals: for every rune id, the sum of the amounts of its `RuneBurned` events equals the
+`burned` field of its entry (absent = 0 on both sides), after every successfully indexed chain of
+consecutive blocks (heights 0, 1, 2, …, at most 2^32 transactions each) in which no txid occurs
+twice.  (The index adds a block's burns to the entries at the end of the block, so this is a
+statement about committed states, which is what `run` produces.) -/
+theorem c37_burned (cfg : Cfg) (chain : List Block) (st : State) (evs : List Event)
+    (h : run cfg chain = .ok (st, evs)) (hc : RuneLift.SupplyChainOK chain) (id : RuneId) :
+    (AL.get (replay cfg evs chain).burned id).getD 0 = (AL.get (project cfg st).burned id).getD 0 := by
+  have := run_binv chain cfg chain st evs h hc id
+  show (AL.get (evs.foldl (applyEvent chain) {}).burned id).getD 0 = (AL.get (st.runeEntries.map _) id).getD 0
+  rw [AL.get_map_val (fun e : RuneEntry => e.burned) st.runeEntries id]
+  exact this
+
 /-- The inscription / UTXO pass of a block is invisible on the rune side: it leaves the rune
 entries and balances alone and emits only inscription events (events without a txid field). -/
 theorem c37_utxo_pass_emits_no_rune_event (cfg : Cfg) (st : State) (blk : Block) (st1 : State) (ev1 : List Event)
@@ -52,9 +65,10 @@ theorem c37_utxo_pass_emits_no_rune_event (cfg : Cfg) (st : State) (blk : Block)
   ⟨(indexUtxoEntries_rsame cfg st blk st1 ev1 h).1.1, (indexUtxoEntries_rsame cfg st blk st1 ev1 h).1.2,
    (indexUtxoEntries_rsame cfg st blk st1 ev1 h).2⟩
 
-/-! ### non-vacuity: an index (runes only, to keep the example small) over a two-block chain with an etching (reserved name,
+/-! ### non-vacuity: an index (runes only, to keep the example small) over a three-block chain with an etching (reserved name,
 open mint terms) and a mint of it succeeds, emits `RuneEtched`, `RuneTransferred`, `RuneMinted`, `RuneTransferred`
-(premine 7 + mint 3 = 10 moved to one output), and the replay reproduces the projection -/
+(premine 7 + mint 3 = 10 moved to one output), `RuneBurned` (the 10 units sent to an
+OP_RETURN-only transaction); the chain satisfies `SupplyChainOK`, and the replay reproduces the projection -/
 
 def exCfg : Cfg := ⟨false, false, false, false, true, 0, 0, 0⟩
 
@@ -66,17 +80,31 @@ def exChain : List Block :=
     ⟨1, 0, 0, 0,
       [⟨21, [⟨OutPoint.null, false, none, []⟩], [⟨50, false, []⟩], [], none, 0⟩,
        ⟨22, [⟨⟨12, 0⟩, false, none, []⟩], [⟨0, true, []⟩, ⟨50, false, []⟩], [],
-         some (.runestone [] none (some ⟨0, 1⟩) none), 0⟩]⟩ ]
+         some (.runestone [] none (some ⟨0, 1⟩) none), 0⟩]⟩,
+    ⟨2, 0, 0, 0,
+      [⟨31, [⟨OutPoint.null, false, none, []⟩], [⟨50, false, []⟩], [], none, 0⟩,
+       ⟨32, [⟨⟨22, 1⟩, false, none, []⟩], [⟨0, true, []⟩], [], none, 0⟩]⟩ ]
+
+example : RuneLift.SupplyChainOK exChain := by
+  refine ⟨?_, by decide⟩
+  intro i hi
+  have : i = 0 ∨ i = 1 ∨ i = 2 := by simp [exChain] at hi; omega
+  rcases this with rfl | rfl | rfl <;> simp [exChain]
 
 example : (match run exCfg exChain with
     | .ok (st, evs) =>
       (evs.length, (replay exCfg evs exChain).runes, (replay exCfg evs exChain).mints,
         (project exCfg st).mints, (replay exCfg evs exChain).agrees (project exCfg st))
-    | _ => (0, [], [], [], false)) = (4, [⟨0, 1⟩], [(⟨0, 1⟩, 1)], [(⟨0, 1⟩, 1)], true) := by decide
+    | _ => (0, [], [], [], false)) = (5, [⟨0, 1⟩], [(⟨0, 1⟩, 1)], [(⟨0, 1⟩, 1)], true) := by decide
+
+example : (match run exCfg exChain with
+    | .ok (st, evs) => ((replay exCfg evs exChain).burned, (project exCfg st).burned, st.balances.length)
+    | _ => ([], [], 1)) = ([(⟨0, 1⟩, 10)], [(⟨0, 1⟩, 10)], 0) := by decide
 
 #print axioms c37_rune_block_step
 #print axioms c37_rune_entries
 #print axioms c37_mints
+#print axioms c37_burned
 #print axioms c37_utxo_pass_emits_no_rune_event
 
 end Ord.Index
